@@ -356,8 +356,9 @@ class KemenyYoung:
                     best_score = score
                 else:
                     best_variants.append(variant)
-        if len(best_variants) == 1:
-            return best_variants[0][:n_seats]
+        prefixes = {tuple(variant[:n_seats]) for variant in best_variants}
+        if len(prefixes) == 1:
+            return list(prefixes.pop())
         else:
             return votelib.evaluate.core.Tie.tie_rankings(
                 best_variants
